@@ -43,6 +43,7 @@ STATES = [
     "commit-in-flight-while-processing",
     "offset-lookup-last-retry",
     "fetch-last-retry",
+    "commit-in-backoff-more-progress",
 ]
 
 REQUIRED_LABELS = [
@@ -103,6 +104,8 @@ def jobs(tier):
         for action in ("stop", "shutdown"):
             for cfg in ("nogroup", "n1", "ms"):
                 if cfg == "nogroup" and "commit" in state:
+                    continue
+                if state == "commit-in-backoff-more-progress" and cfg != "n1":
                     continue
                 if state == "commit-in-flight-while-processing" and cfg == "ms":
                     pass
@@ -281,6 +284,21 @@ def scenario(job):
                 w.mc = []
                 c.commit().addBoth(w.mc.append)
             w.client.fail(pending("commit"), NotCoordinator())
+        elif state == "commit-in-backoff-more-progress":
+            # a count-triggered commit failed with a retriable error and is waiting to be retried; meanwhile the next block is
+            # fetched and processed, which triggers the count-based auto-commit again
+            w.client.resolve(pending("fetch"), block(1))
+            proc_ok()
+            w.client.fail(pending("commit"), NotCoordinator())
+            for _ in range(3):
+                if pending("fetch") is not None:
+                    break
+                fire_next_timer(w.clock)
+            if pending("fetch") is not None:
+                w.client.resolve(pending("fetch"), block(1))
+                if w.pend is not None:
+                    proc_ok()
+            ctx.check(not w.res, "start-deferred-fires-once-with-last-processed", "start() Deferred fired while running although nothing unrecoverable happened: %r" % (w.res,))
         ctx.log("prefix-done", state, len(w.client.pending), w.pend is not None)
 
         # ------------------------------------------------------------------ the action
@@ -295,6 +313,9 @@ def scenario(job):
                 if k == 0:
                     w.client.resolve(p, block(1))
                 else:
+                    # with an attempt limit in force (configured, or the one shutdown() imposes) a failed fetch can be the last
+                    # permitted attempt, which is an unrecoverable error by configuration
+                    w.unrecoverable = True
                     w.client.fail(p, NotLeaderForPartitionError())
             elif p.kind == "commit":
                 k = ctx.choose("commit_outcome", 4)
@@ -304,10 +325,13 @@ def scenario(job):
                     w.committed.append(req.offset)
                     w.client.resolve(p, [OffsetCommitResponse(TOPIC, PART, 0)])
                 elif k == 1:
+                    w.unrecoverable = True  # retriable, but shutdown() limits the number of attempts
                     w.client.fail(p, FailedPayloadsError([], [(req, Failure(RequestTimedOutError("x")))]))
                 elif k == 2:
+                    w.unrecoverable = True
                     w.client.fail(p, IllegalGeneration())
                 else:
+                    w.unrecoverable = True
                     w.client.fail(p, ValueError("not kafka"))
             elif p.kind == "offset":
                 ctx.log("offset-reply")
@@ -365,6 +389,7 @@ def scenario(job):
                     from twisted.internet.defer import CancelledError as TCE_
 
                     w.proc_cancelled = kind == 1
+                    w.unrecoverable = True
                     d.errback(RuntimeError("processor failed") if kind == 0 else TCE_())
                 elif a == 3:
                     ctx.log("timer", fire_next_timer(w.clock))
@@ -428,6 +453,8 @@ def scenario(job):
                     "start() result %r, last_processed_offset %r" % (w.res[0], w.lp_at_res),
                 )
             elif len(w.res) == 1:
+                ctx.check(getattr(w, "unrecoverable", False), "start-deferred-fires-once-with-last-processed",
+                          "start() Deferred failed with %r although nothing unrecoverable was injected" % (w.res[0].value,))
                 # a failure is legitimate only for an unrecoverable error that happened (processor failure,
                 # failed commit); never for the cancellations stop() itself causes
                 from twisted.internet.defer import CancelledError as TCE
